@@ -196,7 +196,9 @@ fn gen_reference(rng: &mut Rng, mesh: &M) -> M {
             // offset copy of a subset of faces, each face moved along its own normal
             let keep: Vec<usize> = (0..mesh.f.len()).filter(|_| rng.chance(0.4)).collect();
             let keep = if keep.is_empty() { vec![rng.below(mesh.f.len())] } else { keep };
-            let off = rng.uniform(-0.05, 0.05) * size;
+            // (now and then exactly in place: the rest of the subject then lies exactly in the
+            // planes of the copied faces, beside them)
+            let off = if rng.chance(0.25) { 0.0 } else { rng.uniform(-0.05, 0.05) * size };
             let mut v = Vec::new();
             let mut f = Vec::new();
             for &i in &keep {
